@@ -96,6 +96,8 @@ class XyeEngine(Engine):
         scn = self._gen_one(rng, tier)
         if rng.random() < 0.1:
             scn["locale"] = "C"  # default text encoding of open() is strict ASCII
+        if rng.random() < 0.15:
+            scn["logging"] = rng.choice(["INFO", "DEBUG"])  # the application has logging switched on
         if scn["kind"] == "roundtrip" and (i < 6 or rng.random() < 0.15) and scn["n"] <= 200:
             if i < 6 or rng.random() < 0.5:
                 other = self._twin(scn, rng)
